@@ -357,3 +357,39 @@ Proof.
   destruct tr; try (apply tdelta_model_true; apply HL).
   rewrite <- tdelta_adj_zero. apply tdelta_model_true. apply HL.
 Qed.
+
+(* ================================================================== hyperparameters re-assigned between steps *)
+(* a run whose reduction and trainer values never change is the plain per-element run *)
+Theorem cell_run_tv_const red c trs st (is : list (stepin RN)) :
+  cell_run_tv RN c st (map (fun i => (red, trs, i)) is) = cell_run_ps RN red c trs st is.
+Proof. revert st; induction is as [|i t IH]; intros st; [reflexivity|]. cbn. rewrite IH. reflexivity. Qed.
+
+(* the monitors of such a run are those of the plain cell: re-assigning hyperparameters does not touch them *)
+Definition tv_state (c : cellcfg RN) (st : cellstate RN) (is : list (tvstep RN)) : cellstate RN :=
+  fold_left (fun s (x : tvstep RN) => fst (cell_step_ps RN (fst (fst x)) c (snd (fst x)) s (snd x))) is st.
+Lemma tv_state_is_state_after red c st is : tv_state c st is = state_after red c st (map snd is).
+Proof.
+  revert st; induction is as [|[[r trs] i] t IH]; intros st; [reflexivity|]. cbn [tv_state fold_left map snd fst].
+  fold (tv_state c (fst (cell_step_ps RN r c trs st i)) t). rewrite IH. reflexivity.
+Qed.
+Lemma cell_run_tv_app c st is1 is2 :
+  cell_run_tv RN c st (is1 ++ is2) = cell_run_tv RN c st is1 ++ cell_run_tv RN c (tv_state c st is1) is2.
+Proof.
+  revert st; induction is1 as [|[[r trs] i] t IH]; intros st; [reflexivity|]. cbn [app cell_run_tv]. rewrite IH. reflexivity.
+Qed.
+
+(* FLAGSHIP for live hyperparameters: the record of every step of such a run is the forward of the trainer values IN FORCE
+   AT THAT STEP (with that step's reduction and delays) applied to the true-time t_delta values of the whole history *)
+Theorem cell_run_tv_true_times c n m (prefix : list (tvstep RN)) red trs i :
+  shaped n m (map snd prefix ++ [i]) ->
+  cell_run_tv RN c (mkCS RN None None) (prefix ++ [(red, trs, i)]) =
+  cell_run_tv RN c (mkCS RN None None) prefix ++
+  [(fst (cell_step RN red c (state_after red c (mkCS RN None None) (map snd prefix)) i),
+    map3 (fun s d tr => fwd RN red tr (si_sig RN i) (spec_tds (set_tr RN c tr) (map snd prefix ++ [i]) s d))
+         (c_syn RN c) (si_delay RN i) trs)].
+Proof.
+  intros Hs. rewrite cell_run_tv_app. f_equal. cbn [cell_run_tv]. f_equal.
+  rewrite (tv_state_is_state_after red).
+  rewrite (surjective_pairing (cell_step_ps RN red c trs (state_after red c (mkCS RN None None) (map snd prefix)) i)).
+  f_equal. apply cell_step_ps_true_times with (n := n) (m := m). exact Hs.
+Qed.
